@@ -76,3 +76,15 @@ func (v *VerifCore) GenesisPeers() *peers.PeerSet { return v.c.genesisPeers }
 
 // Leave runs the core's leave procedure.
 func (v *VerifCore) RecordHeads() error { return v.c.recordHeads() }
+
+// VerifAddTransaction is what doBackgroundWork does with a submitted transaction.
+func (n *Node) VerifAddTransaction(tx []byte) { n.addTransaction(tx) }
+
+// VerifInitialUndeterminedEvents exposes the baseline used by checkSuspend.
+func (n *Node) VerifInitialUndeterminedEvents() int { return n.initialUndeterminedEvents }
+
+// VerifSuspendLimit exposes the configured suspend limit.
+func (n *Node) VerifSuspendLimit() int { return n.conf.SuspendLimit }
+
+// SetRemovedRound sets the round at which the node's removal takes effect.
+func (v *VerifCore) SetRemovedRound(r int) { v.c.removedRound = r }
